@@ -374,14 +374,69 @@ func (r *EngineRunner) crashLines(f []string, emit func(line, res string)) {
 			}
 			res, d1, d2 := r.openImage(root, cfg)
 			_ = os.RemoveAll(root)
+			_ = os.MkdirAll(root, 0755)
 			oc := cut
 			if strings.HasPrefix(cut, "at:") {
 				oc = "durable" // a byte cut guarantees what the durable cut guarantees
 			}
 			r.crashOracle(k, oc, res, d1, d2)
 			emit(fmt.Sprintf("E crashat %d %s %s", k, cut, strings.Join(cfg, " ")), res)
+			if cut == "none" && r.crashProp == "C04" && d1 != nil {
+				// "all later histories": a new process commits one more batch on the crashed
+				// image; after the next restart exactly that batch has been added
+				if err := r.shadow.materialize(k, r.dir(), root, cutf); err == nil {
+					res := r.continueImage(k, root, cfg, d1)
+					emit(fmt.Sprintf("E crashcont %d %s %s %s %s", k, cut, strings.Join(cfg, " "), contKey, contVal), res)
+				}
+				_ = os.RemoveAll(root)
+			}
 		}
 	}
+}
+
+const contKey, contVal = "636f6e74", "6e6577"
+
+// continueImage: open the crash image, commit one more batch (one put), close, open again, dump.
+// The crashed batch must stay invisible: the result is the recovered mapping plus the one key.
+func (r *EngineRunner) continueImage(k int, root string, cfg []string, d1 map[string][]byte) string {
+	saved1, saved2, saved3 := fio.VerifEvent, kv.VerifFsEvent, kv.VerifMergeFile
+	fio.VerifEvent, kv.VerifFsEvent, kv.VerifMergeFile = nil, nil, nil
+	defer func() { fio.VerifEvent, kv.VerifFsEvent, kv.VerifMergeFile = saved1, saved2, saved3 }()
+	opts := parseOpts(cfg, filepath.Join(root, "db"))
+	db, err := kv.Open(opts)
+	if err != nil {
+		return "err " + EngErr(err)
+	}
+	key, _ := ParseTok(contKey)
+	val, _ := ParseTok(contVal)
+	b := db.NewBatch(kv.BatchOptions{})
+	id := b.VerifBatchID()
+	_ = b.Put(key, val)
+	if err := b.Commit(); err != nil {
+		_ = db.Close()
+		return "err commit " + EngErr(err)
+	}
+	_ = db.Close()
+	db, err = kv.Open(opts)
+	if err != nil {
+		r.fail("C04", "crash after %d events, then one more committed batch and a clean restart: Open failed: %s", k, EngErr(err))
+		return fmt.Sprintf("ok %d err %s", id, EngErr(err))
+	}
+	d, derr := dumpDB(db)
+	_ = db.Close()
+	if derr != nil {
+		r.fail("C04", "crash after %d events, then one more committed batch and a clean restart: dump failed: %s", k, EngErr(derr))
+		return fmt.Sprintf("ok %d err dump", id)
+	}
+	want := make(map[string][]byte, len(d1)+1)
+	for kk, v := range d1 {
+		want[kk] = v
+	}
+	want[string(key)] = val
+	if why, ok := sameMap(want, d); !ok {
+		r.fail("C04", "crash after %d events, then one more committed batch (id %d) and a clean restart: the mapping is not the recovered one plus that batch (a crashed batch became visible in part or as a whole): %s", k, id, why)
+	}
+	return fmt.Sprintf("ok %d %s", id, digestMap(d))
 }
 
 var _ = bytes.Equal
